@@ -1,0 +1,114 @@
+//! Verification-only, read-only accessors (feature `verif-hooks`).
+//!
+//! Every struct is destructured exhaustively so that adding, removing or renaming a field is a
+//! compile error here rather than a silently unhashed field.
+use super::*;
+use ::core::hash::Hasher;
+
+impl HuffmanTable {
+    fn verif_hash<H: Hasher>(&self, h: &mut H) {
+        let HuffmanTable { look_up, tree } = self;
+        for v in look_up.iter() {
+            h.write_i16(*v);
+        }
+        for v in tree.iter() {
+            h.write_i16(*v);
+        }
+    }
+}
+
+impl DecompressorOxide {
+    /// Feed the complete decoder state to `h`.
+    pub fn verif_hash<H: Hasher>(&self, h: &mut H) {
+        let DecompressorOxide {
+            state,
+            num_bits,
+            z_header0,
+            z_header1,
+            z_adler32,
+            finish,
+            block_type,
+            check_adler32,
+            dist,
+            counter,
+            num_extra,
+            table_sizes,
+            bit_buf,
+            tables,
+            code_size_literal,
+            code_size_dist,
+            code_size_huffman,
+            raw_header,
+            len_codes,
+        } = self;
+        h.write_u8(*state as u8);
+        h.write_u32(*num_bits);
+        h.write_u32(*z_header0);
+        h.write_u32(*z_header1);
+        h.write_u32(*z_adler32);
+        h.write_u8(*finish);
+        h.write_u8(*block_type);
+        h.write_u32(*check_adler32);
+        h.write_u32(*dist);
+        h.write_u32(*counter);
+        h.write_u8(*num_extra);
+        for v in table_sizes.iter() {
+            h.write_u16(*v);
+        }
+        h.write_u64(*bit_buf as u64);
+        for t in tables.iter() {
+            t.verif_hash(h);
+        }
+        h.write(code_size_literal);
+        h.write(code_size_dist);
+        h.write(code_size_huffman);
+        h.write(raw_header);
+        h.write(len_codes);
+    }
+
+    /// Numeric id of the automaton state (`State as u8`); 25.. are the failure states.
+    pub fn verif_state(&self) -> u8 {
+        self.state as u8
+    }
+
+    /// Name of the automaton state, for coverage maps.
+    pub fn verif_state_name(&self) -> &'static str {
+        match self.state {
+            Start => "Start",
+            ReadZlibCmf => "ReadZlibCmf",
+            ReadZlibFlg => "ReadZlibFlg",
+            ReadBlockHeader => "ReadBlockHeader",
+            BlockTypeNoCompression => "BlockTypeNoCompression",
+            RawHeader => "RawHeader",
+            RawMemcpy1 => "RawMemcpy1",
+            RawMemcpy2 => "RawMemcpy2",
+            ReadTableSizes => "ReadTableSizes",
+            ReadHufflenTableCodeSize => "ReadHufflenTableCodeSize",
+            ReadLitlenDistTablesCodeSize => "ReadLitlenDistTablesCodeSize",
+            ReadExtraBitsCodeSize => "ReadExtraBitsCodeSize",
+            DecodeLitlen => "DecodeLitlen",
+            WriteSymbol => "WriteSymbol",
+            ReadExtraBitsLitlen => "ReadExtraBitsLitlen",
+            DecodeDistance => "DecodeDistance",
+            ReadExtraBitsDistance => "ReadExtraBitsDistance",
+            RawReadFirstByte => "RawReadFirstByte",
+            RawStoreFirstByte => "RawStoreFirstByte",
+            WriteLenBytesToEnd => "WriteLenBytesToEnd",
+            BlockDone => "BlockDone",
+            HuffDecodeOuterLoop1 => "HuffDecodeOuterLoop1",
+            HuffDecodeOuterLoop2 => "HuffDecodeOuterLoop2",
+            ReadAdler32 => "ReadAdler32",
+            DoneForever => "DoneForever",
+            BlockTypeUnexpected => "BlockTypeUnexpected",
+            BadCodeSizeSum => "BadCodeSizeSum",
+            BadDistOrLiteralTableLength => "BadDistOrLiteralTableLength",
+            BadTotalSymbols => "BadTotalSymbols",
+            BadZlibHeader => "BadZlibHeader",
+            DistanceOutOfBounds => "DistanceOutOfBounds",
+            BadRawLength => "BadRawLength",
+            BadCodeSizeDistPrevLookup => "BadCodeSizeDistPrevLookup",
+            InvalidLitlen => "InvalidLitlen",
+            InvalidDist => "InvalidDist",
+        }
+    }
+}
